@@ -489,6 +489,17 @@ def run(db, chk):
             if node.get("k") == "call" and node.get("bn") == POOL + "::run_tasks":
                 self.n_pub += 1
                 st = st.remove("ev", lambda x: x == "acked")
+            elif node.get("k") == "call" and node.get("fid") is not None:
+                # a spin helper: a callee of the pool that loops on a predicate passed as a callable
+                cal = self.fn.callee(node)
+                if cal is not None and (cal.cls or "").startswith(POOL) and cal.body is not None and \
+                        any(n.get("k") in ("while", "do", "for") for n in walk(cal.body)):
+                    for a in node.get("a", []):
+                        for n in walk(a):
+                            if n.get("k") == "lambda" and n.get("fid") in self.fn.unit.fns:
+                                lam = self.fn.unit.fns[n["fid"]]
+                                if any(m in signals for m in field_reads(lam, lam.body, db)):
+                                    st = st.add("ev", "acked")
             return st
 
         def enter_loop(self, stmt, st):
